@@ -151,10 +151,24 @@ def runCli (c : Case) : Res :=
              String.intercalate " " (impl.drop 2) }
   | _ => { verdict := "BADCASE", msg := "unparsable cli case" }
 
+/-- Family `fmvpdf` (C20, end to end): the real tool on generated PDF files; the oracle was evaluated
+    by the harness on the tool's printed table (read back through its own notes). -/
+def runFmvpdf (c : Case) : Res :=
+  let impl := (c.lines.find? (fun l => l.head? == some "impl")).getD []
+  let tags := ["nt=C20", s!"statements={(kv? c.header "statements").getD "?"}", s!"parallel={(kv? c.header "parallel").getD "?"}"]
+  match impl[1]? with
+  | some "same" => { verdict := "ok", tags := tags }
+  | some "skipped" => { verdict := "ok", tags := "nt=" :: tags.drop 1 }
+  | some "differ" =>
+    { verdict := "ORACLE", tags := "of=C20" :: tags,
+      msg := "questrade-statement-fmv on the generated PDF statements: " ++ String.intercalate " " (impl.drop 2) }
+  | _ => { verdict := "BADCASE", msg := "unparsable fmvpdf case" }
+
 def dispatch (c : Case) : Res :=
   match c.family with
   | "ledger" => runLedger c
   | "cli" => runCli c
+  | "fmvpdf" => runFmvpdf c
   | "app" => runApp c
   | "symbase" => runSymbase c
   | "splitneutral" => runSplitneutral c
